@@ -46,6 +46,19 @@ Theorem C17_ical_equiv_range : forall r ds,
 Proof. exact ical_equiv_wall. Qed.
 Print Assumptions C17_ical_equiv_range.
 
+(* ... and in the first year already FROM THE ZONE'S FIRST ONSET ON (the earlier of the first
+   DAYLIGHT and the first STANDARD onset, as wall readings); before it the default component applies
+   (C17_before_first_onset) *)
+Theorem C17_ical_equiv_from_first_onset : forall r ds,
+  r.(p_dst) = Some ds -> wf_posix r = true -> guard_apart r = true ->
+  forall y0 n z w f cs, zone_for r ds z ->
+  cs = [comp_daylight r ds y0 n; comp_standard r ds y0 n] \/
+  cs = [comp_standard r ds y0 n; comp_daylight r ds y0 n] ->
+  (0 < n)%nat -> year_of_secs w = y0 -> Z.min (RS ds y0) (RE ds y0) <= w ->
+  ic_observe_wall cs w f = observe_wall z w f.
+Proof. exact ical_equiv_wall_first. Qed.
+Print Assumptions C17_ical_equiv_from_first_onset.
+
 (* ... and hence against the POSIX specification itself: a wall reading that denotes an instant
    (normal, or ambiguous with its fold; wall_instant of PosixSpec.v) observes through the
    VTIMEZONE zone what POSIX prescribes at that instant *)
